@@ -7,7 +7,7 @@ for k in sorted(d for d in os.listdir(os.path.join(wt, "OUT")) if d.isdigit()):
     src = os.path.join(wt, "OUT", k)
     ev = json.load(open(os.path.join(src, "eval.json"))) if os.path.exists(os.path.join(src, "eval.json")) else {}
     meta = json.load(open(os.path.join(src, "meta.json")))
-    dst = os.path.join(ROOT, "seeded", f"{pid}-{k}")
+    dst = os.path.join(ROOT, "seeded", f"{pid}-{os.environ.get('SEED_SUFFIX', '')}{'-' if os.environ.get('SEED_SUFFIX') else ''}{k}")
     os.makedirs(dst, exist_ok=True)
     shutil.copy(os.path.join(src, "patch.diff"), dst)
     shutil.copy(os.path.join(src, "demo.rs"), dst)
